@@ -365,7 +365,8 @@ def hex_threshold(ctx):
         ctx.stats["states"] += len(paths)
         for pc, (stt, text), holes in paths:
             if stt != "ok":
-                raise HarnessError(f"HexLiteral.basic09_text on a symbolic literal: {stt} {text}")
+                ctx.harness_gap(f"HexLiteral.basic09_text on a symbolic literal: {stt} {text}")
+                continue
             tpl = symproxy.split_template(text)
             shape = "".join(p if isinstance(p, str) else "#" for p in tpl)
             # reader: "$#" is a 16-bit two's complement hex constant, "#" / "#.0" decimal; float(x) = x
@@ -425,7 +426,8 @@ def run(tier):
                 ctx.note_inconclusive(f"{r['src']!r}: {what}")
                 continue
             if sig.startswith("harness"):
-                raise HarnessError(f"{r['src']!r}: {what}")
+                ctx.harness_gap(f"{r['src']!r}: {what}")
+                continue
             ctx.violation(sig, f"{r['src']!r} -> {what}", {"source": r["src"], "emitted": r.get("emitted"), "witness": witness, "how": "convert(source) with PLAIN options, then ./bin/check replay"})
     for r in results[:: max(1, len(results) // 8)]:
         ctx.sample({"source": r["src"], "status": r["status"], "emitted": (r.get("emitted") or "")[:120], "counts": r["counts"]})
